@@ -25,6 +25,7 @@ import (
 	"io"
 	"net"
 	"net/http"
+	"runtime"
 	"strconv"
 	"strings"
 	"sync"
@@ -211,6 +212,7 @@ type c12World struct {
 	s          *fasthttp.Server
 	C, M       int
 	mode       byte
+	cleaner    bool // tiny MaxIdleWorkerDuration: the worker pool's cleaner retires idle workers within milliseconds
 	keep       bool
 	ln         *c12Listener
 	serveDone  chan error
@@ -643,6 +645,36 @@ func (w *c12World) do(op byte, k int) bool {
 	return true
 }
 
+// idle lets the server sit idle for (much) longer than MaxIdleWorkerDuration, so that the pool's cleaner retires the
+// idle workers.  The retirement itself is not observable through the API; the exit of a retired worker's goroutine
+// is used as a hint to stop waiting early.  Whatever really happened, the monitor stays sound: the wait only makes
+// the retirement path likely, it is never part of a verdict.
+func (w *c12World) idle() {
+	if !w.cleaner || !w.serving {
+		return
+	}
+	hadWorker := false
+	for _, cs := range w.conns {
+		if cs.entry == 's' && cs.admitted && (cs.closed || cs.hijacked) {
+			hadWorker = true
+		}
+	}
+	g0 := runtime.NumGoroutine()
+	start := time.Now()
+	for {
+		time.Sleep(500 * time.Microsecond)
+		el := time.Since(start)
+		if el > 4*time.Millisecond && (!hadWorker || runtime.NumGoroutine() < g0) {
+			break
+		}
+		if el > 120*time.Millisecond {
+			break
+		}
+	}
+	time.Sleep(3 * time.Millisecond)
+	w.tok("I", "-")
+}
+
 // finish drives every connection to its end and stops the accept loop.
 func (w *c12World) finish() {
 	for k, cs := range w.conns {
@@ -762,7 +794,8 @@ func init() {
 			"next request, client close, hijack handler returns, owner closes a kept hijacked connection (twice), listener close} for mode in {Serve once, ServeConn only, mixed} x Concurrency 1..3 x MaxConnsPerIP 0..2 x KeepHijackedConns; " +
 			"every op is completed before the next starts (gates, ConnState hook, ServeConn return), counters sampled after each op and validated by the Lean model; " +
 			"after the last op everything is closed and one follow-up connection per used address must pass the per-IP limit; " +
-			"burst: <=8 connections started at once through ServeConn/Serve with parked handlers (monitor only); " +
+			"a tenth of the Serve histories run with MaxIdleWorkerDuration = 1ms and idle periods, so the worker pool's cleaner retires idle workers between the ops; " +
+			"burst: <=8 connections started at once through ServeConn/Serve with parked handlers, optionally after the pool was warmed up and its idle workers retired (monitor only); " +
 			"non-trivial = at least one connection rejected or hijacked, or two served at once; distinct = distinct arguments",
 		NoShrink: true,
 		Assumptions: []string{
@@ -777,12 +810,17 @@ func init() {
 				return nil
 			}
 			mode := a[0][0]
-			C, M, keep := c12Atoi(a[1]), c12Atoi(a[2]), c12Atoi(a[3]) != 0
+			C, M, flags := c12Atoi(a[1]), c12Atoi(a[2]), c12Atoi(a[3])
+			keep := flags&1 != 0
 			if C < 1 || C > 4 || M < 0 || M > 3 || (mode != 's' && mode != 'd' && mode != 'm') {
 				return nil
 			}
 			w := newC12World(C, M, keep)
 			w.mode = mode
+			if flags&2 != 0 && mode != 'd' {
+				w.cleaner = true
+				w.s.MaxIdleWorkerDuration = time.Millisecond
+			}
 			ops := a[4]
 			tags := []string{"mode:" + string(mode), fmt.Sprintf("C%d", C), fmt.Sprintf("M%d", M)}
 			switch kind {
@@ -808,6 +846,8 @@ func init() {
 						}
 					case 'K':
 						w.do('K', x)
+					case 'I':
+						w.idle()
 					default:
 						w.do(op, x)
 					}
@@ -841,11 +881,14 @@ func init() {
 			if rej > 0 {
 				tags = append(tags, "rejected")
 			}
+			if w.cleaner {
+				tags = append(tags, "cleaner")
+			}
 			if hij > 0 {
 				tags = append(tags, "hijacked")
 			}
 			toks := make([][]byte, 0, len(w.toks)+3)
-			toks = append(toks, N(C), N(M), N(map[bool]int{false: 0, true: 1}[keep]))
+			toks = append(toks, N(C), N(M), N(map[bool]int{false: 0, true: 1}[keep]|map[bool]int{false: 0, true: 2}[w.cleaner]))
 			for _, t := range w.toks {
 				toks = append(toks, B(t))
 			}
@@ -887,6 +930,7 @@ func init() {
 				{'d', 1, 0, 0, "O\x01X\x00"}, {'d', 1, 1, 0, "O\x01O\x01O\x02"}, {'s', 1, 1, 0, "O\x01O\x01O\x02R\x00X\x00O\x02"},
 				{'s', 2, 1, 0, "O\x01H\x00O\x01J\x00O\x01"}, {'s', 2, 1, 1, "O\x01H\x00J\x00O\x01K\x00O\x01"}, {'d', 2, 2, 1, "O\x01H\x00J\x00K\x00"},
 				{'m', 1, 0, 0, "O\x00O\x04O\x00O\x04"}, {'d', 2, 1, 0, "O\x09X\x00O\x01"}, {'s', 1, 1, 0, "O\x09O\x0aC\x00O\x01"},
+				{'s', 1, 0, 2, "O\x00C\x00I\x00O\x00O\x00"}, {'s', 2, 1, 2, "O\x01O\x02C\x00C\x01I\x00O\x01O\x02O\x03O\x03"}, {'m', 2, 0, 3, "O\x00O\x00X\x00I\x00O\x00O\x00O\x04"},
 				{'s', 2, 1, 0, "O\x09H\x00J\x00O\x01"}, {'d', 2, 1, 1, "O\x09H\x00J\x00K\x00O\x01"}, {'d', 1, 2, 0, "O\x01O\x0aO\x09"}, {'m', 2, 1, 0, "O\x01O\x05L\x00O\x06"}, {'s', 1, 0, 0, "B\x00O\x00B\x00"},
 			}
 			for _, f := range fixed {
@@ -900,11 +944,18 @@ func init() {
 					M = 1 + r.Intn(2)
 				}
 				keep := r.Intn(2)
+				cleaner := mode != 'd' && r.Chance(12)
+				if cleaner {
+					keep |= 2
+				}
 				m := 2 + r.Intn(13)
 				var ops []byte
 				conns := 0
 				for j := 0; j < m; j++ {
 					op := opsAl[r.Intn(len(opsAl))]
+					if cleaner && r.Chance(15) {
+						op = 'I'
+					}
 					if conns == 0 {
 						op = 'O'
 					}
@@ -940,7 +991,11 @@ func init() {
 				for j := range ops {
 					ops[j] = byte(r.Intn(16))
 				}
-				emit("burst", []byte{mode}, N(C), N(M), N(0), ops)
+				fl := 0
+				if mode != 'd' && r.Chance(25) {
+					fl = 2
+				}
+				emit("burst", []byte{mode}, N(C), N(M), N(fl), ops)
 			}
 		},
 	})
@@ -953,6 +1008,16 @@ func c12Atoi(b []byte) int { n, _ := strconv.Atoi(string(b)); return n }
 func c12Burst(w *c12World, mode byte, ops []byte, tags []string) *Case {
 	if mode != 'd' {
 		w.startServe()
+	}
+	if w.cleaner && w.serving {
+		// warm the pool up to Concurrency workers, let them go idle and be retired, then burst
+		for j := 0; j < w.C && w.stuck == ""; j++ {
+			w.open('s', 0, false, false)
+		}
+		for j := range w.conns {
+			w.do('C', j)
+		}
+		w.idle()
 	}
 	n := len(ops)
 	css := make([]*c12ConnSt, n)
